@@ -17,6 +17,7 @@ PointOf(r) ==
   CASE p.kind = "sized" -> [kind |-> "sized", bytes |-> p.bytes, align |-> p.align]
     [] p.kind = "slice" -> [kind |-> "slice", esize |-> p.esize, ealign |-> p.ealign, len |-> p.len]
     [] p.kind = "str"   -> [kind |-> "str", len |-> p.len]
+    [] p.kind = "cslice" -> [kind |-> "cslice", esize |-> p.esize, ealign |-> p.ealign, len |-> p.len]
     [] p.kind = "swh"   -> [kind |-> "swh", hsize |-> p.hsize, halign |-> p.halign, esize |-> p.esize,
                             ealign |-> p.ealign, len |-> p.len]
 
